@@ -159,7 +159,45 @@ def _member(v, path, out, depth):
 class OpRecord:
     __slots__ = ('tid', 'idx', 'op', 'inv', 'ret', 'res', 'live', 'inp',
                  'cancelled', 'dirty', 'switch_at_inv', 'snap_before',
-                 'snap_after', 'zone', 'aborted')
+                 'snap_after', 'zone', 'aborted', 'version', 'twin')
+
+
+def structural_copy(obj):
+    """A fresh object with equal contents and no hidden state: same class,
+    deep copies of the public attributes only (slots / known fields)."""
+    import copy
+    if isinstance(obj, (lib.base.Frame, lib.base.BasicProperties)):
+        new = type(obj).__new__(type(obj))
+        for s_ in type(obj).__slots__:
+            if hasattr(obj, s_):
+                setattr(new, s_, structural_copy(getattr(obj, s_)))
+        return new
+    if isinstance(obj, lib.header.ContentHeader):
+        new = lib.header.ContentHeader.__new__(lib.header.ContentHeader)
+        new.class_id = obj.class_id
+        new.weight = obj.weight
+        new.body_size = obj.body_size
+        new.properties = structural_copy(obj.properties)
+        return new
+    if isinstance(obj, lib.body.ContentBody):
+        new = lib.body.ContentBody.__new__(lib.body.ContentBody)
+        new.value = obj.value
+        return new
+    if isinstance(obj, lib.heartbeat.Heartbeat):
+        return lib.heartbeat.Heartbeat.__new__(lib.heartbeat.Heartbeat)
+    if isinstance(obj, lib.header.ProtocolHeader):
+        new = lib.header.ProtocolHeader.__new__(lib.header.ProtocolHeader)
+        new.major_version = obj.major_version
+        new.minor_version = obj.minor_version
+        new.revision = obj.revision
+        return new
+    if isinstance(obj, dict):
+        return {k: structural_copy(v) for k, v in obj.items()}
+    if isinstance(obj, list):
+        return [structural_copy(v) for v in obj]
+    if isinstance(obj, bytearray):
+        return bytearray(obj)
+    return obj
 
 
 class RunB:
@@ -286,7 +324,8 @@ class RunB:
         rec = OpRecord()
         rec.tid, rec.idx, rec.op = tid, idx, op
         rec.cancelled = rec.dirty = rec.aborted = False
-        rec.live = rec.inp = None
+        rec.live = rec.inp = rec.twin = None
+        rec.version = 0
         rec.snap_before = rec.snap_after = None
         rec.switch_at_inv = self.model_switch
         rec.zone = self.zone
@@ -357,6 +396,8 @@ class RunB:
                         ch = src.op['frame'].get('ch', 0)
                     else:
                         ch = src.res[2] if src.res[0] == 'frame' else 0
+                    v0 = src.version
+                    t0 = len(self.toggle_seqs)
                     try:
                         out = lib.frame.marshal(src.live, ch)
                         res = ['bytes', bytes(out).hex()]
@@ -368,6 +409,19 @@ class RunB:
                         # a caller-side mutation by another thread may have
                         # landed while this call was pre-empted
                         rec.dirty = rec.dirty or src.dirty
+                    # twin encode: a fresh object with equal contents must
+                    # give the same bytes (no stale cache, no hidden state)
+                    twin = structural_copy(src.live)
+                    self.in_lib[tid] = True
+                    try:
+                        out2 = lib.frame.marshal(twin, ch)
+                        tw = ['bytes', bytes(out2).hex()]
+                    except Exception as e:
+                        tw = canon_exc(e)
+                    finally:
+                        self.in_lib[tid] = False
+                    if src.version == v0 and len(self.toggle_seqs) == t0:
+                        rec.twin = tw
             else:
                 try:
                     self.in_lib[tid] = True
@@ -419,6 +473,7 @@ class RunB:
         if src is None or src.live is None:
             return 'skip'
         src.dirty = True
+        src.version += 1
         o = src.live
         self.count(self.fired, 'mutate_result')
         if isinstance(o, lib.header.ContentHeader):
@@ -583,6 +638,22 @@ class RunB:
                                   else '',
                                   json.dumps(rec.snap_before)[:300],
                                   json.dumps(rec.snap_after)[:300]))
+            if rec.twin is not None and not rec.cancelled and \
+                    not rec.aborted and rec.res is not None:
+                self.oracle('twin_equal')
+                got_t = json.loads(json.dumps(rec.res))
+                if got_t != rec.twin:
+                    what = ('thread %d op %d: marshalling the held object '
+                            'gave %s but a fresh object with equal contents '
+                            'gives %s%s' % (
+                                rec.tid, rec.idx, json.dumps(got_t)[:300],
+                                json.dumps(rec.twin)[:300],
+                                ' (after a caller-side in-place edit)'
+                                if rec.dirty else ''))
+                    self.fail('C12', 'twin', ['equal-contents-differ',
+                                              'marshal_slot'], what)
+                    self.fail('C16', 'twin', ['hidden-state',
+                                              'marshal_slot'], what)
             if rec.cancelled or rec.aborted or rec.dirty:
                 continue
             key = self.expected_for(rec)
